@@ -28,10 +28,8 @@ pub enum Pend {
 pub enum Trunc {
     /// the full body, clean EOF
     Full,
-    /// the full body with clean EOF, plus every proper prefix (0..len) with EOF and with
-    /// Err(Incomplete), plus the full body followed by Err(Incomplete)
-    FullAndEveryOffset,
-    /// only the truncated / Err-ended variants (the full body is covered by another set)
+    /// every proper prefix (0..len) ended by EOF and ended by Err(Incomplete), plus the full body
+    /// followed by Err(Incomplete) (the full body with clean EOF is covered by the `Full` sets)
     EveryOffset,
 }
 
@@ -330,6 +328,34 @@ fn defs(thorough: bool) -> Vec<SetDef> {
             name: "F:every-truncation-offset-x-every-2-cut",
             bodies: vec![BodySet { min_fields: 0, max_fields: 1, contents: all_contents(), flavours: vec![Mixed], boundaries: vec![0], pre_epi: vec![(0, 0), (1, 1)] }],
             plan: Plan { deliveries: vec![Cut2], pend: Pend::NoneAll, trunc: Trunc::EveryOffset, progs: Progs::ReadAll, limits: new.clone() },
+        });
+    }
+
+    if thorough {
+        v.push(SetDef {
+            name: "B3:every-1-cut-on-3-field-bodies",
+            bodies: vec![BodySet { min_fields: 3, max_fields: 3, contents: core_contents(), flavours: vec![Mixed], boundaries: vec![0], pre_epi: vec![(0, 0)] }],
+            plan: Plan { deliveries: vec![Cut1], pend: Pend::Subsets, trunc: Trunc::Full, progs: Progs::ReadAll, limits: new.clone() },
+        });
+        v.push(SetDef {
+            name: "D2:every-truncation-offset-x-every-1-cut-x-every-pending-subset",
+            bodies: vec![BodySet { min_fields: 0, max_fields: 1, contents: all_contents(), flavours: vec![Mixed], boundaries: vec![0], pre_epi: ALL_PE.to_vec() }],
+            plan: Plan { deliveries: vec![Cut1], pend: Pend::Subsets, trunc: Trunc::EveryOffset, progs: Progs::ReadAll, limits: new.clone() },
+        });
+        v.push(SetDef {
+            name: "E3:every-2-cut-on-2-field-form-data-bodies",
+            bodies: vec![BodySet { min_fields: 2, max_fields: 2, contents: core_contents(), flavours: vec![Form], boundaries: vec![0], pre_epi: vec![(0, 0)] }],
+            plan: Plan { deliveries: vec![Cut2], pend: Pend::NoneAll, trunc: Trunc::Full, progs: Progs::ReadAll, limits: new.clone() },
+        });
+        v.push(SetDef {
+            name: "G2:consumer-programs-x-every-2-cut",
+            bodies: vec![BodySet { min_fields: 1, max_fields: 2, contents: core_contents(), flavours: vec![Mixed], boundaries: vec![0], pre_epi: vec![(0, 0)] }],
+            plan: Plan { deliveries: vec![Cut2], pend: Pend::NoneAll, trunc: Trunc::Full, progs: Progs::Consumers, limits: new.clone() },
+        });
+        v.push(SetDef {
+            name: "I2:buffer-limits-x-every-2-cut",
+            bodies: vec![BodySet { min_fields: 0, max_fields: 1, contents: vec![0, 1, 2, 4, 6, 9, 12, 15, N_CONTENTS as u8], flavours: both.clone(), boundaries: vec![0], pre_epi: vec![(0, 0), (1, 1)] }],
+            plan: Plan { deliveries: vec![Cut2], pend: Pend::NoneAll, trunc: Trunc::Full, progs: Progs::ReadAll, limits: vec![Limit::Cfg(16), Limit::Cfg(64), Limit::Cfg(65_536)] },
         });
     }
 
